@@ -399,12 +399,13 @@ def run_check(prop, tier):
                     pass
         print("%s %s: %d runs, %d requests, %d distinct non-trivial end states, %.0f s simulated, %.1f s wall (build %.1f s), seed %d" % (
             prop, tier, total_runs, stats["requests"], len(states), stats["sim_time_ns"] / 1e9, wall, build_s, seed))
-        if missing_reach:
+        for v in norepro:
+            print("note: not exactly reproducible from its replay file (racy tree?): %s :: %s" % (v["sig"], v["detail"][:300]))
+        new_viol = [x for x in new_viol if x[1].get("repro")]
+        if not new_viol and norepro:
+            die(2, "HARNESS-ERROR: violations were seen but none reproduced exactly from its replay file (exit 2)")
+        if not new_viol and missing_reach:
             die(2, "HARNESS-ERROR: reach probes stuck at zero: %s (the workload never exercised them; exit 2, not a pass)" % ", ".join(missing_reach))
-        if norepro:
-            for v in norepro:
-                print("non-reproducing: %s :: %s" % (v["sig"], v["detail"]))
-            die(2, "HARNESS-ERROR: a violation did not reproduce exactly from its replay file (exit 2)")
         if new_viol:
             for sig, v, _ in new_viol:
                 print("violation: %s\n   %s\n   minimised to %d steps, seen %d times" % (sig, v["detail"], v["steps"], sigcounts.get(sig, 0)))
